@@ -57,6 +57,9 @@ func Strfmt(ctx *runtime.Task, funcExpr *ast.CallExpr) *errchain.PlError {
 
 	for i := 2; i < len(funcExpr.Param); i++ {
 		v, _, _ := runtime.RunStmt(ctx, funcExpr.Param[i])
+		if selfContaining(v) {
+			return runtime.NewRunError(ctx, errSelfContaining, funcExpr.Param[i].StartPos())
+		}
 		outdata = append(outdata, v)
 	}
 
